@@ -762,7 +762,7 @@ fn run_eval_g<S: PPGEvaluatorStrategy>(
                         }
                     }
                     let mut contents = BTreeMap::new();
-                    for p in parts_of(w.st[s].parts) {
+                    for p in parts_of(w.parts(s)) {
                         contents.insert(part_name(s, p), w.compute(s, p, &inputs));
                     }
                     for (n, v) in contents.iter() {
@@ -824,7 +824,7 @@ fn run_eval_g<S: PPGEvaluatorStrategy>(
                 acked.insert(j.clone());
                 temp_alive.remove(&j);
                 if let Some(s) = ids.get(&j) {
-                    for p in parts_of(w.st[*s].parts) {
+                    for p in parts_of(w.parts(*s)) {
                         fresh.remove(&part_name(*s, p));
                     }
                 }
@@ -936,7 +936,7 @@ fn leave_failed_output(w: &mut World, s: usize, j: &str, fail_mode: u8) {
     if w.kind(s) != Kind::Output {
         return;
     }
-    for p in parts_of(w.st[s].parts) {
+    for p in parts_of(w.parts(s)) {
         let n = part_name(s, p);
         match fail_mode {
             0 => {
